@@ -409,7 +409,8 @@ class Agent(dbus.service.Object):
             except Exception as err:
                 self._logger.error('Step %5.1f failed with exception: %s', step.order, err)
                 self._logger.debug('%s', traceback.format_exc())
-                break
+                # never transmit a bundle that a TX step could not process
+                raise
 
         if ctr.route and not ctr.sender:
             # Assume the route is a TxRouteItem
